@@ -142,6 +142,10 @@ def c10_jobs(tier):
             + shards(1, 2, 1, 2, 2, 2, 1, timeout_s=3300) + shards(0, 3, 1, 3, 4, 0, 0, timeout_s=3300))
 
 
+def c11_jobs(tier):
+    return [J("hsms", "ZZ_C11_alias", scn=i) for i in range(10)]
+
+
 def c12_jobs(tier):
     jobs = []
     for w in (1, 2, 4, 8, 0, 3):
@@ -178,6 +182,11 @@ def c13_jobs(tier):
 
 
 PROPS = {
+    "C11": dict(jobs=c11_jobs,
+                level_text="Bounded model checking of the aliasing channels: every slice/map passed in or returned is mutated in place by a symbolic non-zero mask at a chosen position, and all observers of every pre-existing object are compared with their snapshots; the engine's slices share backing arrays exactly as Go's do.",
+                level_note="Trusted: go/ssa, engine (slice aliasing and append growth follow the host runtime), z3. Scenarios are fixed call sequences (constructor, producers, fill, encode, decode), not arbitrary histories.",
+                bounds={"scenarios": 10, "mutation": "one byte position (chosen, all positions explored) xor an arbitrary non-zero mask"},
+                outside=["histories longer than the scenario sequences", "concurrent mutation (C17)"]),
     "C10": dict(jobs=c10_jobs,
                 level_text="Bounded exhaustive symbolic exploration: every list template within the bound (item kinds, ellipsis positions, nesting are decisions) x every assignment of repeat counts 0..R or unfilled, compared with a reference expander written from the documentation.",
                 level_note="Structural property: exhaustiveness is over templates/assignments within the bound. '...' and '...[0]' are both accepted for a single remaining ellipsis. Trusted: go/ssa, engine, the reference expander (harness/ast/c10.go).",
